@@ -484,7 +484,26 @@ func (g *Gen) str() []byte {
 	case 1:
 		return []byte{byte('a' + r.Intn(26))}
 	case 2:
-		return []byte{0xff, 0xfe, 0x80} // not UTF-8
+		// not UTF-8: a Go string is a byte string. Runs of one, two, three and more bytes
+		// that no decoder of UTF-8 accepts (a replacement character per run or per byte is 3
+		// bytes: runs of three keep their length, all others do not), cut characters, an
+		// encoded surrogate half, an overlong form, plain random bytes
+		switch r.Intn(8) {
+		case 0:
+			return []byte{0xff, 0xfe, 0x80}
+		case 1:
+			return []byte("caf\xe9 au lait")
+		case 2:
+			return []byte("a\xe2\x82")
+		case 3:
+			return []byte("\xff\xfe\xfd\xfc\xfb tail")
+		case 4:
+			return []byte("x\xed\xa0\x80y\xc0\xaf")
+		case 5:
+			return []byte("\x80")
+		default:
+			return r.Bytes(r.Range(1, 14))
+		}
 	case 3:
 		return []byte{'a', 0, 'b'} // embedded NUL
 	case 4:
